@@ -910,8 +910,20 @@ func (p *Parser) inferExprType(mod *sysl.Module,
 	return expr.Type, anonCount, expr.Type
 }
 
+// inferTypes infers the types of the views of one application. The views are walked in the order of their names
+// and the anonymous types of their untyped nested transforms are numbered per application, so that every such
+// transform gets a type name of its own and the result does not depend on the iteration order of the map.
 func (p *Parser) inferTypes(mod *sysl.Module, appName string) {
-	for viewName, view := range mod.Apps[appName].Views {
+	views := mod.Apps[appName].Views
+	viewNames := make([]string, 0, len(views))
+	for viewName := range views {
+		viewNames = append(viewNames, viewName)
+	}
+	sort.Strings(viewNames)
+
+	anonCount := 0
+	for _, viewName := range viewNames {
+		view := views[viewName]
 		if syslutil.HasPattern(view.Attrs, "abstract") {
 			continue
 		}
@@ -919,7 +931,8 @@ func (p *Parser) inferTypes(mod *sysl.Module, appName string) {
 			logrus.Warnf("view %s expression should be of type transform", viewName)
 			continue
 		}
-		p.inferExprType(mod, appName, view.Expr, true, 0, viewName, viewName, view.GetRetType())
+		_, anonCount, _ = p.inferExprType(mod, appName, view.Expr, true, anonCount, viewName, viewName,
+			view.GetRetType())
 	}
 }
 
